@@ -58,7 +58,15 @@ pub fn parse_bytes(s: &str) -> Result<Vec<u8>, ParseSequenceError> {
                 }
                 Some((idx, c2)) => {
                     let byte: u8 = match c2 {
-                        'x' => {
+                        'a' => 0x07,
+                        'b' => 0x08,
+                        'v' => 0x0b,
+                        'f' => 0x0c,
+                        'n' => b'\n',
+                        'r' => b'\r',
+                        't' => b'\t',
+                        '\\' | '?' | '"' | '\'' | '`' => c2 as u8,
+                        'x' | 'X' => {
                             let hex: String = [
                                 chars
                                     .next()
